@@ -151,7 +151,12 @@ def run(ctx):
                 'long-form-short-length / segmented-octets / segmented-bits / nested-segments-k / set-permuted); '
                 'correspondence cases add the input kind (variant, variant+tail, 9 malformed kinds) and outcome class; '
                 'non-trivial = at least one rewrite feature used or malformed input')
+    # helper layer regenerated from the source (translator/pyfun.py) BEFORE the theorems are checked against it
+    import pyfun_tie
+    _tie = pyfun_tie.run_tie(ctx, budget=400)
     ok = ctx.coq_props()
+    pyfun_tie.report(ctx, _tie, functions=['is_end_of_data', 'detect_end_of_contents_tag', 'read_tag', 'skip_tag', 'decode_length', 'decode_object_identifier_subidentifier'])
+
     ctx.trusted_base += [
         'Ber/X690.v part 2 (BER trees, bwf, bread): my formalisation of X.690 clause 8, pinned by ber_check on every variant',
         'harness/codec_ber.py: independent TLV parser / rewriter / tag calculator',
